@@ -125,6 +125,45 @@ DESC = {
     "C17-F": ("`RegisterResponse::encode` emits the signature before the attestation certificate", "register responses with arbitrary field values (certificates of 0-1200 bytes) encoded and compared with the own concatenation"),
     "C18-E": ("trait route keeps only extension inputs `get_info` lists: the `hmac-secret` flag is dropped, store / `enabled` differ", "plain hmac-secret flag (absent / true / false) added to makeCredential requests"),
     "C18-F": ("trait route computes a log tag with `split_at(4)` of the client data hash: hashes shorter than 4 bytes panic", "client-data hashes of 0, 1, 3, 4, 20, 48 bytes added"),
+    # ---- round 4 (all properties; seeders were pointed at unexercised input and usage dimensions)
+    "C01-G": ("`Client::allows_insecure_localhost` forwards only when enabling: after `(true)` then `(false)` localhost stays accepted", "setter histories (opposite value first, or value / opposite / value) on verifier and client"),
+    "C01-H": ("registrable-domain helper honours only two of the provider's three error variants: a custom provider answering `InvalidPublicSuffix` makes every RP ID registrable", "custom provider reports refusals with each error variant"),
+    "C02-G": ("`MemoryStore::save_credential` with rk=true first removes credentials of the same RP and user id: the second registration of an account replaces the first", "sequences of client registrations into the in-memory store with repeating user ids and every residentKey preference"),
+    "C02-H": ("`authData` handed to `cbor!` as `Bytes`: with the crate feature `serialize_bytes_as_base64_string` the attestation object carries it as a text string", "engine `b64feat`: the whole workload of C02 / C03 also runs against the library built with that feature"),
+    "C03-G": ("Android origin formatted with base64 instead of base64url (`+` `/` for `-` `_`)", ""),
+    "C03-H": ("rpIdHash taken from the stored credential's `rp_id` instead of the request's", "assertions over vault items whose converted `Passkey` carries the RP ID in another presentation (empty, upper case, trailing dot)"),
+    "C04-G": ("credential re-read from the store after consent when it has a counter: another credential arriving during the prompt signs instead of the one shown", "36 cases in which a credential of the RP arrives in the store while the user is being asked"),
+    "C04-H": ("`?` inside the lookup's `Ok` arm: a store answering 'nothing found' with `Ok(vec![])` yields NoCredentials before the user is asked", ""),
+    "C05-G": ("single-slot store compares ids with an XOR fold over `zip`: an id that is a proper prefix / extension of the stored one (or empty) matches", "id lists with a proper prefix, an extension of a held id and the empty id"),
+    "C05-H": ("exclude-list lookup skipped when the store does not advertise rk", "part (a) runs under every store capability"),
+    "C06-G": ("`public_key_der_from_cose_key` takes the last two key parameters: for a stored key (which carries `d`) the 'public key' is y ‖ d", "the SubjectPublicKeyInfo the public helper derives from each stored key is scanned"),
+    "C06-H": ("`.expect()` on a `Vec -> [u8; 32]` conversion prints the PRF secret in the panic message when an imported credential's secret is not 32 bytes long", "assertions with imported credentials (PRF secrets of 16-64 bytes); a panic message is scanned like any other output"),
+    "C07-G": ("incremented counter signed from a local, persisted only when UP is set: a silent assertion reports a counter the store never saw", "silent assertion shapes (CTAP level)"),
+    "C07-H": ("U2F registration rejects a key handle over 255 bytes only after the credential was saved", "U2F registrations with key handles of 0-300 bytes over the reference store (also refusing the save) and the shipped stores"),
+    "C08-G": ("counter bumped after signing, the struct patched afterwards: the signed authenticator data carries the old counter", "the signature is verified over the returned authenticator data"),
+    "C08-H": ("rollback of the counter on extension errors is not guarded: a refused PRF assertion rewrites counter-less credentials", "PRF requests also made of credentials without PRF secret (refused assertions)"),
+    "C09-G": ("`make_extensions(.., input.options.up)` for `.uv`: creation-time PRF always uses the UV-gated secret", ""),
+    "C09-H": ("`make_prf` rewritten as one `match` loses the 'no secrets' early return: `enabled: true` with an explicit `hmac-secret: false`", ""),
+    "C10-G": ("empty-label scan moved from the input to the returned eTLD+1: `a..example.com` accepted", ""),
+    "C10-H": ("process-wide 'last TLD' cache keyed by a 32-bit hash of the label, hit not compared with the label: a later lookup under an unlisted TLD with a colliding hash reuses the node", "NOT caught: needs a 32-bit hash collision that can be computed from the changed source but is not found by behaviour (limit, §8)"),
+    "C11-G": ("rk support memoised in the authenticator on first use and never invalidated", "108 cells of two registrations on one authenticator whose store changes capability in between"),
+    "C11-H": ("getInfo `rk` additionally requires `is_verification_enabled() != Some(false)`", "those cells run under every verification-capability report (Some(true) / Some(false) / None)"),
+    "C12-G": ("encoder canonicalises the attested COSE key: a key whose parameters are not in (crv, x, y) order is emitted re-ordered", "attested keys with reversed / rotated parameter order"),
+    "C12-H": ("constructor strips a trailing dot from the RP ID before hashing", "RP IDs with a trailing dot, a lone dot, upper case, leading space, trailing slash"),
+    "C13-G": ("a present-but-empty (or all-unknown) `transports` list decodes as absent", ""),
+    "C13-H": ("getInfo option `up` loses `default = true`: an options map without `up` decodes to false", "getInfo responses with partial option maps ({}, {rk, clientPin}, {plat, up:false})"),
+    "C14-G": ("emitted `transports: Some([])` is skipped when serialising and parses back as `None`", "authenticators configured with empty / other transports lists; emitted credentials compared as values (Debug text), not only as re-serialised JSON"),
+    "C14-H": ("shared list visitor allocates lazily: a list without any known entry becomes `None` (and `pubKeyCredParams: []` a hard error)", ""),
+    "C15-G": ("field-identifier `visit_u128` unwraps a conversion to u64: a map key written as a bignum above 2^64 panics six decoders", "bignum-tagged map keys (tag 2 / 3, 1-17 bytes) in front of valid messages"),
+    "C15-H": ("hmac-secret salt parser accepts every multiple of 32 and copies into a 64-byte array: 96, 128, … bytes panic", "decoder 29 `HmacSecretSaltOrOutput::try_from(&[u8])` (and 30: all single-byte conversions)"),
+    "C16-G": ("continuation header no longer rewrites the channel bytes while tail zeroing starts at `data.len()`: for last chunks of 1-3 bytes the channel id is truncated", ""),
+    "C16-H": ("fast-path slot for the last active channel: an orphan continuation for another channel drops the in-progress message", ""),
+    "C17-G": ("'counter must move forward' guard with `<=`: authentication with counter 0 is refused", ""),
+    "C17-H": ("key handle taken with `chunks_exact(len)`: an empty key handle panics the parser", ""),
+    "C18-G": ("trait route drops exclude-list descriptors of unknown type before forwarding", "list descriptors with unknown type strings and transport hints"),
+    "C18-H": ("trait route answers PinAuthInvalid when `pinProtocol` is present without `pinAuth`", "`pinProtocol` present independently of `pinAuth`"),
+    "C19-G": ("old counter written back when extension processing fails: a blind write that overwrites a concurrent successful assertion's counter", "assertions refused in extension processing (after the counter advanced) next to a successful one, followed by a sequential assertion"),
+    "C19-H": ("`debug_assert!(self.insert(..).is_some())` in `MemoryStore::update_credential`: in release builds the counter is never stored", "every check runs in both build profiles (release added to all quick and thorough tiers)"),
 }
 
 
